@@ -308,6 +308,12 @@ func (tr *Tracker) OnDeallocate(t *pod_info.PodInfo) {
 	if t.Status == pod_status.Releasing {
 		// (if the nomination of a moved pod is being undone, the ghost stays until the node's pod map
 		// shows the releasing instance again; ghostsOn de-duplicates against the pod map)
+		if _, moved := tr.ghosts[key]; moved {
+			// a later solver of the same cycle evicts the NOMINATED instance of a pod that was already
+			// moved to another device: the original releasing instance is still charged on its device,
+			// so the record of the first eviction (and the ghost) stays
+			return
+		}
 		c := t.Clone()
 		c.GPUGroups = append([]string{}, t.GPUGroups...)
 		tr.lastEvict[key] = c
